@@ -348,6 +348,15 @@ class C07(Prop):
             for m in range(16):
                 c = [v if (m >> k) & 1 else 128 for k in range(4)]
                 out.append(yuv_line(256, 1, ys, [c[0], c[1]] * 64, [c[2], c[3]] * 64))
+        # row independence: identical luma rows over chroma rows that differ (a row's colours depend on ITS chroma row)
+        gp = pairs[:: max(1, len(pairs) // (40 if tier == "quick" else 400))]
+        for k in range(len(gp) - 1):
+            (cb1, cr1), (cb2, cr2) = gp[k], gp[k + 1]
+            for rows in (3, 4, 6):
+                crw = (rows + 1) // 2
+                cbp = ([cb1] * 128 + [cb2] * 128) * crw
+                crp = ([cr1] * 128 + [cr2] * 128) * crw
+                out.append(yuv_line(256, rows, ys * rows, cbp[: 128 * crw], crp[: 128 * crw]))
         # position independence: the same triples in the 1..3 leftover columns of a width that is not a multiple of four
         # (widths 5, 6, 7: every luma value lands in a leftover column of some row)
         sub = pairs[:: max(1, len(pairs) // (200 if tier == "quick" else 4000))]
@@ -455,7 +464,9 @@ class C08(Prop):
         out = yuv_size_cases(rng, sizes)
         # structured contents (planes whose rows or columns repeat independently of the other planes)
         out += yuv_size_cases(rng, [(w, h) for w in range(1, core.q(tier, 22, 60)) for h in range(1, core.q(tier, 10, 18))], structured=True)
-        out += [f"Y {w} - - -" for w in (0, 1, 2, 3, 4, 5, 16, 17, 176)]
+        # the empty picture at any width, up to the top of the usize range (an empty picture is a multiple of every width)
+        out += [f"Y {w} - - -" for w in (0, 1, 2, 3, 4, 5, 16, 17, 176, 1 << 31, 1 << 32, (1 << 32) + 1, 1 << 61, (1 << 62) - 1,
+                                         1 << 62, (1 << 62) + 1, 1 << 63, (1 << 64) - 1)]
         return out
 
     def nontrivial(self, case, model_out):
